@@ -66,6 +66,11 @@ class P(param.Parameterized):
         self.ynotes = getattr(self, 'ynotes', []) + [event.new]
 
 
+class PSlot(P):
+    """ordinary attributes may live in __slots__ of a subclass"""
+    __slots__ = ['slotted']
+
+
 class PS(P):
     @param.depends('x', 'sub.v', watch=True)
     def _m(self):
@@ -79,9 +84,11 @@ def prog(subdep: bool, mech: int, helper: bool, pre1: int, pv1: int, post1: int,
     helper = pickbool(helper)
     mech = pick(mech, 0, 2)
     pre1 = pick(pre1, 0, N_PRE - 1)
-    K = PS if subdep else P
+    K = PS if subdep else PSlot
     with untraced():
         p = K(sub=Sub())
+        if not subdep:
+            p.slotted = [pre1]
         h = Helper()
         src = Src()
         if helper:
@@ -122,6 +129,9 @@ def prog(subdep: bool, mech: int, helper: bool, pre1: int, pv1: int, post1: int,
     check('C17.succeeds', ok, dict(info, err=err))
     check('C17.equal', q.x == p.x and q.l == p.l and q.param.x.bounds == p.param.x.bounds
           and getattr(q, 'extra', None) == getattr(p, 'extra', None) and q.sub.v == p.sub.v and q.n == p.n and q.r == p.r, info)
+    if not subdep:
+        check('C17.equal', getattr(q, 'slotted', None) == p.slotted, dict(info, slot_attribute=True))
+        check('C17.no_shared_state', getattr(q, 'slotted', None) is not p.slotted, dict(info, slot_attribute=True))
     check('C17.no_shared_state', q.l is not p.l and q.sub is not p.sub and q.param.x is not p.param.x
           and (not hasattr(p, 'extra') or q.extra is not p.extra), info)
     objs = [p, q]
